@@ -94,6 +94,16 @@ func snapDiff(a, b map[string]snapEnt) []string {
 	return d
 }
 
+// fixPaths replaces the "$SB" placeholder of hostile header values by the sandbox directory of this run.
+func (o *mOp) fixPaths(sb string) {
+	for i := range o.Msgs {
+		if o.Msgs[i].FPath != nil {
+			v := strings.ReplaceAll(*o.Msgs[i].FPath, "$SB", sb)
+			o.Msgs[i].FPath = &v
+		}
+	}
+}
+
 func hostileMIDs(c *Ctx, n int) []string {
 	long := strings.Repeat("a", 300)
 	mids := []string{"../../outside/x", "../x", "..", ".", "", "/etc/x", "/abs", "a/b", "a/../../../outside/x", "..\\x", "..\\..\\outside\\x",
@@ -102,6 +112,8 @@ func hostileMIDs(c *Ctx, n int) []string {
 		strings.Repeat("a", 240), strings.Repeat("a", 252), // around NAME_MAX, but not inside the window where only the temp name is too long
 
 		"Mid With Space", "-", "~", "*", "CON", "a\\b", "a:b", "GOODOUT00001", "GOODIN000001", "NEWMID000001", "x.b2f", "x.tmp", "X.B2F", "..x", "x..", "x/../y", "\xff\xfe", " ", "a\nb"}
+	// RFC 2047 encoded-words: harmless as raw bytes, a path once somebody decodes them
+	mids = append(mids, "=?utf-8?q?x=2F..=2F..=2F..=2Fescaped?=", "=?utf-8?q?=2E=2E=2F=2E=2E=2Fx?=", "=?utf-8?b?Li4vLi4veA==?=", "=?ISO-8859-1?Q?..=2F..=2Foutside=2Fx?=", "=?utf-8?q?=2Fabs?=", "..%2F..%2Fx", "%2e%2e%2f%2e%2e%2fx")
 	// systematic family: (prefix that may defeat a separator scan) x (climb) x (landing place, incl. siblings whose
 	// name starts with the mailbox directory's name, which defeat a containment test by string prefix)
 	for _, pre := range []string{"", "/", "//", "a/", "./", "\\", "a/b/../", "in/"} {
@@ -174,77 +186,96 @@ func init() {
 		pre := []mOp{{K: 'P'}, {K: 'A', Msgs: []mMsg{goodOut}}, {K: 'I', Msgs: []mMsg{goodIn}}}
 		n := 0
 		outsideTouched := 0
+		runOne := func(mid string, k byte, override *mOp, hostile bool) {
+			n++
+			sb := filepath.Join(base, fmt.Sprintf("s%d", n))
+			root := filepath.Join(sb, "mbox")
+			os.MkdirAll(filepath.Join(sb, "outside", "in"), 0o755)
+			os.MkdirAll(filepath.Join(sb, "outside", "out"), 0o755)
+			os.MkdirAll(filepath.Join(sb, "outside", "sent"), 0o755)
+			for _, sib := range []string{"mbox-1/in", "mbox-1/out", "mbox-1/sent", "mboxX", "mbo"} {
+				os.MkdirAll(filepath.Join(sb, sib), 0o755)
+			}
+			decoy := goodOut.build()
+			db, _ := decoy.Bytes()
+			for _, p := range []string{"outside/x.b2f", "outside/decoy.b2f", "decoy.b2f", "x.b2f", "outside/in/y.b2f", "outside/out/GOODOUT00001.b2f", "mbox-1/out/GOODOUT00001.b2f"} {
+				os.WriteFile(filepath.Join(sb, p), db, 0o644)
+			}
+			rb := newRealBox(root, false)
+			for _, o := range pre {
+				rb.exec(o)
+			}
+			var op mOp
+			switch k {
+			case 'I':
+				op = mOp{K: 'I', Msgs: []mMsg{{Mid: mid, To: []string{"N0CALL"}, Payload: 7}}}
+			case 'A':
+				op = mOp{K: 'A', Msgs: []mMsg{{Mid: mid, To: []string{"LA1A"}, Payload: 8}}}
+			default:
+				op = mOp{K: k, Mid: mid}
+			}
+			if override != nil {
+				op = *override
+				op.fixPaths(sb)
+			}
+			before := snapshot(sb)
+			var res string
+			if k == 'S' {
+				res = setSentChild(root, mid)
+				if res == "skip" {
+					os.RemoveAll(sb)
+					return
+				}
+			} else {
+				res = rb.exec(op)
+			}
+			after := snapshot(sb)
+			diff := snapDiff(before, after)
+			conf := "t"
+			var changed []string
+			for _, p := range diff {
+				if !strings.HasPrefix(p, root+"/") {
+					conf = "f"
+					outsideTouched++
+					c.Violate("C12:escape:"+string(k), fmt.Sprintf("%s changed %s, outside the mailbox directory %s", op.String(), mboxCanon(p), mboxCanon(root)),
+						map[string]interface{}{"op": op.String(), "mid_hex": hx([]byte(mid)), "changed": mboxCanon(strings.Join(diff, " ")), "result": res})
+				}
+				if fi, err := os.Lstat(p); err != nil || fi.Mode().IsRegular() {
+					changed = append(changed, mboxCanon(p))
+				} else if before[p].mode.IsRegular() {
+					changed = append(changed, mboxCanon(p))
+				}
+			}
+			os.RemoveAll(sb)
+			if strings.ContainsAny(mid, "\n\r") {
+				return
+			}
+			sort.Strings(changed)
+			line := "mboxwrites " + hs(mboxCanon(root)) + " 0 " + fmt.Sprint(len(pre)) + " " + histToks(pre) + " " + op.tok()
+			cases = append(cases, Case{Line: line, Impl: res + " conf=" + conf + " changed=" + listTok(changed), Desc: fmt.Sprintf("%s on sandbox", op.String()),
+				Class: "sandbox-" + string(k), Nontrivial: hostile || !storableMID(mid)})
+		}
 		for _, mid := range hostileMIDs(c, c.Budget(150, 3000)) {
 			if !c.TimeLeft() {
 				break
 			}
-			if strings.ContainsAny(mid, "\n\r") {
-				// cannot be on one driver line; judged by the sandbox oracle only
-			}
 			for _, k := range []byte{'I', 'Q', 'S', 'D', 'A'} {
-				n++
-				sb := filepath.Join(base, fmt.Sprintf("s%d", n))
-				root := filepath.Join(sb, "mbox")
-				os.MkdirAll(filepath.Join(sb, "outside", "in"), 0o755)
-				os.MkdirAll(filepath.Join(sb, "outside", "out"), 0o755)
-				os.MkdirAll(filepath.Join(sb, "outside", "sent"), 0o755)
-				for _, sib := range []string{"mbox-1/in", "mbox-1/out", "mbox-1/sent", "mboxX", "mbo"} {
-					os.MkdirAll(filepath.Join(sb, sib), 0o755)
+				runOne(mid, k, nil, false)
+			}
+		}
+		// header content chosen by the remote station: a received (or queued) message that carries the mailbox's
+		// own private headers, above all X-FilePath naming a file outside the mailbox ("$SB" = the sandbox)
+		for hi, fp := range []string{"$SB/outside/x.b2f", "$SB/outside/new.b2f", "$SB/x.b2f", "../../outside/x.b2f", "../outside/x.b2f", "$SB/mbox-1/in/x.b2f", "$SB/mbox/../outside/x.b2f", "/", "", "$SB/outside"} {
+			if !c.TimeLeft() {
+				break
+			}
+			for _, k := range []byte{'I', 'A'} {
+				f := fp
+				m := mMsg{Mid: fmt.Sprintf("HDRMID%06d", hi), To: []string{"N0CALL"}, Payload: 9, FPath: &f}
+				if hi%2 == 1 {
+					m.Unread, m.P2P = sp("../../outside/x"), sp("/etc/passwd")
 				}
-				decoy := goodOut.build()
-				db, _ := decoy.Bytes()
-				for _, p := range []string{"outside/x.b2f", "outside/decoy.b2f", "decoy.b2f", "x.b2f", "outside/in/y.b2f", "outside/out/GOODOUT00001.b2f", "mbox-1/out/GOODOUT00001.b2f"} {
-					os.WriteFile(filepath.Join(sb, p), db, 0o644)
-				}
-				rb := newRealBox(root, false)
-				for _, o := range pre {
-					rb.exec(o)
-				}
-				var op mOp
-				switch k {
-				case 'I':
-					op = mOp{K: 'I', Msgs: []mMsg{{Mid: mid, To: []string{"N0CALL"}, Payload: 7}}}
-				case 'A':
-					op = mOp{K: 'A', Msgs: []mMsg{{Mid: mid, To: []string{"LA1A"}, Payload: 8}}}
-				default:
-					op = mOp{K: k, Mid: mid}
-				}
-				before := snapshot(sb)
-				var res string
-				if k == 'S' {
-					res = setSentChild(root, mid)
-					if res == "skip" {
-						os.RemoveAll(sb)
-						continue
-					}
-				} else {
-					res = rb.exec(op)
-				}
-				after := snapshot(sb)
-				diff := snapDiff(before, after)
-				conf := "t"
-				var changed []string
-				for _, p := range diff {
-					if !strings.HasPrefix(p, root+"/") {
-						conf = "f"
-						outsideTouched++
-						c.Violate("C12:escape:"+string(k), fmt.Sprintf("%s changed %s, outside the mailbox directory %s", op.String(), mboxCanon(p), mboxCanon(root)),
-							map[string]interface{}{"op": op.String(), "mid_hex": hx([]byte(mid)), "changed": mboxCanon(strings.Join(diff, " ")), "result": res})
-					}
-					if fi, err := os.Lstat(p); err != nil || fi.Mode().IsRegular() {
-						changed = append(changed, mboxCanon(p))
-					} else if before[p].mode.IsRegular() {
-						changed = append(changed, mboxCanon(p))
-					}
-				}
-				os.RemoveAll(sb)
-				if strings.ContainsAny(mid, "\n\r") {
-					continue
-				}
-				sort.Strings(changed)
-				line := "mboxwrites " + hs(mboxCanon(root)) + " 0 " + fmt.Sprint(len(pre)) + " " + histToks(pre) + " " + op.tok()
-				cases = append(cases, Case{Line: line, Impl: res + " conf=" + conf + " changed=" + listTok(changed), Desc: fmt.Sprintf("%s on sandbox", op.String()),
-					Class: "sandbox-" + string(k), Nontrivial: !storableMID(mid)})
+				runOne(m.Mid, k, &mOp{K: k, Msgs: []mMsg{m}}, true)
 			}
 		}
 		c.Note("C12: %d sandbox operations, %d changes outside the mailbox directory", n, outsideTouched)
